@@ -48,6 +48,10 @@ func tokenPrecendence(t ast.Token) precedence {
 
 // Parse returns the ActionList and any error that prevents the ActionList from being parsed
 func (p *Parser) Parse() (*gcs.ActionList, error) {
+	// the lexing goroutine blocks on every token it sends; when parsing stops early (on an
+	// error) it has to be drained or it stays blocked forever
+	defer p.lex.drain()
+
 	var err error
 	for state := parseRows; state != nil; {
 		state, err = state(p)
